@@ -150,9 +150,11 @@ def preambleLoop (d : Doc) (o : Opts) (fromStage : Nat) : Nat → List Coord →
       else do
         let (row, keep, parents) ← preambleRow d o fromStage coords
         let rows := if keep then row :: rows else rows
-        -- `new_next_nodes.append(node.parent)`; a `None` parent ends the walk at the next test
+        -- `new_next_nodes.append(node.parent)`: the next test looks at the first entry only; when that is not the root and some entry is
+        -- `None` (the parent of the root: columns of different depth, possible only with `**` cells below the first line), `node.token`
+        -- raises AttributeError
         match parents.mapM id with
-        | none => .ok rows
+        | none => if parents.head? == some (some (0, 0)) then .ok rows else .error .other
         | some ps => preambleLoop d o fromStage fuel ps rows
 
 /-- the signature rows in force at `fromStage` -/
